@@ -452,7 +452,7 @@ def al1(ctx, pid):
     # fresh sets handed to _new_trie_fog
     ntf = ctx.P.cls(FOG).methods.get("_new_trie_fog")
     if ntf is None:
-        raise AnalysisError("anchor vanished: HexaryTrieFog._new_trie_fog")
+        raise AnalysisError("anchor vanished: function trie.fog:HexaryTrieFog._new_trie_fog not found")
     k = 0
     for f in util.class_functions(ctx, FOG):
         for node in walk_shallow(f.node):
